@@ -83,11 +83,35 @@ class AUX01(MetadataSchema):
 STAGE0 = ("vf-base", "1.0.0", [AA10, AA20, DD01, AUX01])
 STAGE1 = ("vf-ext", "0.3.1", [AA12, BB10, CC02])
 CLASSES = {"AA10": AA10, "AA12": AA12, "AA20": AA20, "BB10": BB10, "CC02": CC02, "DD01": DD01, "AUX01": AUX01}
-NAMES = ["vf.aa", "vf.bb", "vf.cc", "vf.dd", "vf.aux", "core.file"]
+# installed schema plugins attached with instances generated from their field types (harness/geninst.py)
+INSTALLED = ["core.bib", "core.dir", "core.imagefile", "core.table", "core.person", "example.matsci.method"]
+for _n in INSTALLED:
+    CLASSES["I:" + _n] = schemas[_n]
+NAMES = ["vf.aa", "vf.bb", "vf.cc", "vf.dd", "vf.aux", "core.file"] + INSTALLED
+_inst_pool: Dict[str, List[Dict[str, Any]]] = {}
+INVALID = {"definitely": "not valid", "x": "nan", "@id": {"a": 1}, "columns": "nope", "methodType": {"x": 1}}
+
+
+def _check_invalid():
+    for k, c in CLASSES.items():
+        try:
+            c.parse_obj(INVALID)
+        except Exception:
+            continue
+        raise RuntimeError(f"harness: the invalid instance is accepted by {k}")
+
+
+_check_invalid()
 
 
 def instances(cls_key: str, rng: random.Random) -> Dict[str, Any]:
     """A valid instance (as dict) of the schema class."""
+    if cls_key.startswith("I:"):
+        if cls_key not in _inst_pool:
+            from . import geninst
+            objs = geninst.instances(CLASSES[cls_key], random.Random(len(cls_key)), 10)
+            _inst_pool[cls_key] = [json.loads(o.json()) for o in objs]
+        return rng.choice(_inst_pool[cls_key])
     s = rng.choice(["x", "äöü ✓", "line\nbreak", "0", " padded "])
     i = rng.choice([0, 1, -1, 2**40, 7])
     return {
